@@ -1,6 +1,7 @@
 package mdata
 
 import (
+	"github.com/lindb/lindb/series/field"
 	"fmt"
 	"math/rand"
 	"path/filepath"
@@ -98,6 +99,11 @@ type c04 struct {
 	crashP   float64
 	skipSettle bool
 	window   int // rollup_cw: 1 = waiting for a target commit, 2 = die at the next operation on the source store
+
+	files        int                    // source files flushed so far
+	epoch        int                    // rollup triggers and restarts so far
+	origins      map[originKey][]origin // where the contributions of a target cell come from
+	pendingKnown func()                 // first C04/first-last-order observation of the run (known finding)
 }
 
 func (h *c04) dayStart() int64 { return jan1 + int64(h.day-1)*dayMs }
@@ -232,7 +238,10 @@ func (h *c04) check(when string) {
 				return
 			}
 		}
-		if !compare(c, "C04", fmt.Sprintf("%s: target interval %dms", when, t.interval), h.models[t.interval], obs) {
+		interval := t.interval
+		if !compare(c, "C04", fmt.Sprintf("%s: target interval %dms", when, t.interval), h.models[t.interval], obs, func(k cellKey, got []float64) bool {
+			return h.strictFirstLast(when, interval, k, got)
+		}) {
 			return
 		}
 		h.sim.Probe("target-checked")
@@ -241,7 +250,7 @@ func (h *c04) check(when string) {
 
 func runC04(c *core.RunCtx) {
 	sim := c.Sim
-	h := &c04{c: c, sim: sim, base: filepath.Join(c.Dir, "db"), day: c.Plan.C("day", 1), models: map[int64]model{}, nMetrics: c.Plan.C("metrics", 1),
+	h := &c04{c: c, sim: sim, base: filepath.Join(c.Dir, "db"), day: c.Plan.C("day", 1), models: map[int64]model{}, origins: map[originKey][]origin{}, nMetrics: c.Plan.C("metrics", 1),
 		crashP: float64(c.Plan.C("crash_pm", 0)) / 1000}
 	h.srcName = filepath.Join(h.base, "day", fmt.Sprintf("200001%02d", h.day))
 	for i := 0; i < h.nMetrics; i++ {
@@ -308,6 +317,7 @@ func runC04(c *core.RunCtx) {
 				c.Violate("C04/reopen-failed", "opening the stores failed: %v", err)
 				return
 			}
+			h.epoch++
 			if incarnation > 0 && h.skipSettle {
 				h.skipSettle = false
 			} else if incarnation > 0 {
@@ -334,17 +344,25 @@ func runC04(c *core.RunCtx) {
 						return
 					}
 					famStart := h.dayStart() + int64(hour)*hourMs
+					h.files++
 					for _, t := range h.targets {
 						tt := t
-						h.models[t.interval].addFile(fc, func(_ uint32, s uint16) int { return int((famStart + int64(s)*srcInterval) / tt.interval) })
+						fileNo := h.files
+						h.models[t.interval].addFile(fc, func(_ uint32, s uint16) int { return int((famStart + int64(s)*srcInterval) / tt.interval) },
+							func(k cellKey, v float64, s uint16) {
+								ok := originKey{tt.interval, k}
+								h.origins[ok] = append(h.origins[ok], origin{epoch: h.epoch, file: fileNo, at: famStart + int64(s)*srcInterval, v: v})
+							})
 					}
 					continue // nothing to judge until a rollup ran
 				case "rollup_cw":
+					h.epoch++
 					h.armed, h.window = true, 1
 					h.src.ForceRollup()
 					h.awaitIdle()
 					h.armed, h.window = false, 0
 				case "rollup", "rollup2":
+					h.epoch++
 					h.armed = h.crashP > 0
 					h.src.ForceRollup()
 					if op.K == "rollup2" {
@@ -355,6 +373,7 @@ func runC04(c *core.RunCtx) {
 					h.awaitIdle()
 					h.armed = false
 				case "tick":
+					h.epoch++
 					h.armed = h.crashP > 0
 					kv.VerifStoreCompact(h.src)
 					h.awaitIdle()
@@ -390,4 +409,73 @@ func runC04(c *core.RunCtx) {
 		}
 		simrt.Sleep(time.Millisecond)
 	}
+	if h.pendingKnown != nil && !c.Violated() && c.Res.Anomaly == "" {
+		h.pendingKnown()
+	}
+}
+
+// ---- first / last fields: the value of the latest / earliest source slot ---------------------------------
+
+type origin struct {
+	epoch int  // number of rollup triggers (and restarts) before the flush: files of one epoch go through one merge
+	file int   // source file (flush) number
+	at   int64 // timestamp of the source slot
+	v    float64
+}
+
+type originKey struct {
+	interval int64
+	k        cellKey
+}
+
+// strictFirstLast: a target slot of a last (first) field holds the value of the latest (earliest) source slot that
+// falls into it - "the field-type aggregate of exactly those source slots". Judged when one target file holds the
+// cell (every contribution went through one merge, or the merges were merged). One rollup job folds its source files
+// in time order (since the repair of DownSamplingMultiSeriesInto). Source files rolled up by DIFFERENT jobs (late data
+// of a family that was rolled up before) meet as target files, which no longer know the source slots: the later
+// target file wins - known finding C04/first-last-order, reported at the end of the run; everything else is
+// C04/first-last-wrong.
+func (h *c04) strictFirstLast(when string, interval int64, k cellKey, got []float64) bool {
+	if len(got) != 1 {
+		return true
+	}
+	os := h.origins[originKey{interval, k}]
+	if len(os) == 0 {
+		return true
+	}
+	last := fieldType(k.field) == field.LastField
+	best := os[0].at
+	files := map[int]bool{}
+	for _, o := range os {
+		files[o.epoch] = true
+		if (last && o.at > best) || (!last && o.at < best) {
+			best = o.at
+		}
+	}
+	var want []float64
+	for _, o := range os {
+		if o.at == best {
+			want = append(want, o.v)
+			if o.v == got[0] {
+				if len(os) > 1 {
+					h.sim.Probe("first-last-judged-by-source-time")
+				}
+				return true
+			}
+		}
+	}
+	word := "earliest"
+	if last {
+		word = "latest"
+	}
+	if len(files) > 1 {
+		if h.pendingKnown == nil {
+			detail := fmt.Sprintf("%s: target interval %dms metric %d series %d field %d slot %d holds %v, the %s source slot contributed %v (contributions of source files rolled up by %d different jobs)", when, interval, k.metric, k.series, k.field, k.slot, got[0], word, want, len(files))
+			h.pendingKnown = func() { h.c.Violate("C04/first-last-order", "%s", detail) }
+		}
+		h.sim.Probe("first-last-folded-out-of-time-order")
+		return true
+	}
+	h.c.Violate("C04/first-last-wrong", "%s: target interval %dms metric %d series %d field %d slot %d holds %v, the %s source slot contributed %v", when, interval, k.metric, k.series, k.field, k.slot, got[0], word, want)
+	return false
 }
